@@ -19,9 +19,9 @@ SIM_UNIT = "group operations"
 BUDGET = {"quick": {"runs": 400, "wall": 85}, "thorough": {"runs": 12000, "wall": 2400}}
 SHRINK_LISTS = ("ops",)
 PROBES = {"C03": ["history>=1000", "history>=10000", "act4:w=0", "float32", "batched", "scale-steered",
-                  "assoc", "act-compose", "identity", "inverse"]}
+                  "assoc", "act-compose", "identity", "inverse", "reinit-from-identity", "logscale>8"]}
 TS = float(os.environ.get("PPSIM_TOLSCALE", "1"))
-UPDATES = ("mulr", "mull", "inv", "add_", "plus", "retr", "idl", "idr")
+UPDATES = ("mulr", "mull", "inv", "add_", "plus", "retr", "idl", "idr", "reinit")
 PROBE_OPS = ("act3", "act4", "assoc", "actcomp", "access", "invlaw")
 
 
@@ -34,9 +34,10 @@ def generate(seed, tier, prop="C03"):
     else:
         n = 1500 if x < 0.03 else r.randint(5, 300)
     cfg = {"fam": fam, "dtype": r.choice(["f64", "f64", "f32"]), "bshape": r.choice([[], [1], [3], [2, 2]]),
-           "sigma": r.choice([0.05, 0.3, 1.0, 2.5])}
+           "sigma": r.choice([0.05, 0.3, 1.0, 2.5]), "logs_bound": r.choice([3.0, 3.0, 8.0, 16.0])}
     ro = rng.stream(seed, "ops")
     wu = {k: ro.choice([0, 1, 2, 4]) for k in UPDATES}
+    wu["reinit"] = min(wu["reinit"], 1) if n <= 400 else 0
     if sum(wu.values()) == 0:
         wu["mulr"] = 1
     pprobe = ro.choice([0.05, 0.15, 0.4]) if n <= 400 else 0.02
@@ -171,7 +172,9 @@ def execute(plan, prop, out, tr):
         Xn = npd(X); MX = to_mat(fam, Xn)
         nX = np.abs(MX).max()
         logs = np.log(scale_of(fam, Xn)) if has_s else np.zeros(1)
-        steer = has_s and np.abs(logs).max() > 3.0
+        steer = has_s and np.abs(logs).max() > c.get("logs_bound", 3.0)
+        if has_s and np.abs(logs).max() > 8:
+            out.probe("logscale>8")
         if op in UPDATES:
             a = alg(i, "a")
             if steer:
@@ -206,7 +209,7 @@ def execute(plan, prop, out, tr):
                 E = to_mat(fam, npd(lie(a.to(dtype), fam, False).Exp()))
                 want = E @ MX; Mref = E @ Mref
                 if op == "add_":
-                    R = X.clone(); R.add_(av.to(dtype))
+                    R = X; R.add_(av.to(dtype))         # in place on the element itself (objects are re-used across ops)
                 elif op == "plus":
                     Xb = X.clone(); R = X + av.to(dtype)
                     if not torch.equal(X, Xb):
@@ -216,6 +219,18 @@ def execute(plan, prop, out, tr):
                 # the algebra element is rounded to the run's dtype before Exp: account for it in float32
                 local(R, want, op, i, nX * np.abs(E).max() * (1 + np.abs(a.numpy()).max()))
                 X = R
+            elif op == "reinit":
+                # start again from a (batched) identity constructor and move it in place: every item of the batch
+                # must be an independent element
+                I0 = getattr(pp, "identity_" + fam)(*bs, dtype=dtype) if i % 2 else pp.identity_like(X, dtype=dtype)
+                E = to_mat(fam, npd(lie(a.to(dtype), fam, False).Exp()))
+                av = torch.zeros(bs + (gd,), dtype=torch.float64); av[..., :md] = a
+                I0.add_(av.to(dtype))
+                local(I0, E, op, i, np.abs(E).max())
+                Mref = E.copy()
+                R = I0
+                X = R
+                out.probe("reinit-from-identity")
             else:
                 # identity_like documents 'same lsize and ltype'; the dtype is an explicit argument
                 I = pp.identity_like(X, dtype=dtype) if i % 2 else getattr(pp, "identity_" + fam)(*bs, dtype=dtype)
